@@ -4,8 +4,10 @@
 (*   MODE "pads"   : bare streams, every combination of the four pads x first-read sizes          *)
 (*   MODE "neg"    : bare streams, every offer x selection policy x key mode x payload size       *)
 (*   MODE "policy" : btconn.Dial / Accept under every consistent policy against every peer kind   *)
+(*   MODE "frag"   : bare streams, long pads (PADS_FRAG) x fragmentation classes of the first read *)
+(*                   (MSE!FragFr); the cases are printed (fam "frag") and replayed by harness/c12 *)
 EXTENDS MSE, Json
-CONSTANTS MODE, PADS_AB, PADS_CD, FULLFR
+CONSTANTS MODE, PADS_AB, PADS_CD, FULLFR, PADS_FRAG
 
 Base == [dk |-> "raw", ck |-> "raw", enable |-> TRUE, force |-> FALSE, forceIn |-> FALSE, provide |-> 3, ia |-> 0,
          keymode |-> "same", selpol |-> "preferRC4", trunc |-> FALSE, loose |-> FALSE]
@@ -13,6 +15,14 @@ Base == [dk |-> "raw", ck |-> "raw", enable |-> TRUE, force |-> FALSE, forceIn |
 PadScenarios ==
     IF FULLFR THEN {Base}
     ELSE {[Base EXCEPT !.selpol = "preferRC4", !.ia = 68], [Base EXCEPT !.selpol = "preferPlain", !.ia = 0]}
+
+\* fragmentation family: one scenario (distinct from the pad scenarios by its payload size)
+FragScenario == [Base EXCEPT !.selpol = "preferRC4", !.ia = 1]
+FragScenarios == IF PADS_FRAG = {} THEN {} ELSE {FragScenario}
+\* every (PadA, PadB) x (first read of B against PadA, first read of A against PadB): exactly what MCNext explores for FragScenario
+FragCases == UNION {{[fam |-> "frag", padA |-> pp[1], padB |-> pp[2], frB |-> fb, frA |-> fa,
+                      clB |-> FragClass(pp[1], fb), clA |-> FragClass(pp[2], fa)] :
+                        fb \in FragFr(pp[1]), fa \in FragFr(pp[2])} : pp \in PADS_FRAG \X PADS_FRAG}
 
 NegScenarios ==
     {[Base EXCEPT !.provide = p, !.selpol = sp, !.keymode = km, !.ia = n, !.loose = lo] :
@@ -42,28 +52,36 @@ SesScenarios == {s \in PolicyScenarios : /\ s.dk = "rain" /\ s.ck \in {"plainonl
 Scenarios == CASE MODE = "pads" -> PadScenarios
                [] MODE = "neg" -> NegScenarios
                [] MODE = "policy" -> PolicyScenarios
-               [] OTHER -> PadScenarios \cup NegScenarios \cup PolicyScenarios       \* "all"
+               [] MODE = "frag" -> FragScenarios
+               [] OTHER -> PadScenarios \cup NegScenarios \cup PolicyScenarios \cup FragScenarios      \* "all"
 
 \* the dense pad sets are used for the pad scenarios; PadA,PadB in {0, 511} and PadC = PadD = 255 for the negotiation / policy scenarios
-PadsAB == IF sc \in PadScenarios THEN PADS_AB ELSE {0, 511}
+PadsAB == IF sc \in PadScenarios THEN PADS_AB ELSE IF sc \in FragScenarios THEN PADS_FRAG ELSE {0, 511}
 PadsCD == IF sc \in PadScenarios THEN PADS_CD ELSE {255}
 
+Max(S) == CHOOSE x \in S : \A y \in S : y <= x
 ASSUME \A s \in Scenarios : ScOK(s)
 
 \* the scan bound is exactly 512: every pad 0..512 is found for every first-read size, 513 never is
 ASSUME \A pad \in 0 .. 512 : \A fr \in 96 .. Min2(FirstBuf, 96 + pad) :
            ScanFinds(fr, 96 + pad, 8, ScanA - fr) /\ ScanFinds(fr, 96 + pad, 20, ScanB - fr)
+\* the printed fragmentation cases contain, for both directions, a long pad with the first read ending before / inside it
+ASSUME PADS_FRAG # {} => \A side \in {"A", "B"} : \E x \in FragCases :
+           LET pad == IF side = "A" THEN x.padB ELSE x.padA
+               cl  == IF side = "A" THEN x.clA ELSE x.clB
+           IN pad >= Max(ScanEdgePads) /\ cl \in {"key", "inpad"}
 ASSUME \A fr \in 96 .. FirstBuf : ~ScanFinds(fr, 96 + 513, 8, ScanA - fr) /\ ~ScanFinds(fr, 96 + 513, 20, ScanB - fr)
 
 \* first-read sizes: all of them, or the boundary-dense selection
 FrChoices(av) ==
     LET hi == Min2(FirstBuf, av) IN
     IF FULLFR THEN 96 .. hi
-    ELSE {96, (96 + hi) \div 2, hi - 1, hi} \cap (96 .. hi)
+    ELSE FragFr(hi - 96)          \* = {96, (96 + hi) \div 2, hi - 1, hi} \cap (96 .. hi): every fragmentation class
 
 \* the policy matrix is also printed (one JSON object per scenario): harness/c12 replays it against btconn
 MCInit == \E s \in Scenarios : /\ InitWith(s)
                                 /\ (s \in PolicyScenarios => PrintT("@@" \o ToJson(s)))
+                                /\ (s \in FragScenarios => \A x \in FragCases : PrintT("@@" \o ToJson(x)))
                                 /\ (s \in SesScenarios => \A fi \in BOOLEAN : PrintT("@@" \o ToJson([fam |-> "ses", sc |-> s, sfi |-> fi])))
 
 MCNext ==
